@@ -21,6 +21,7 @@ import (
 	"sync"
 	"testing"
 	"testing/synctest"
+	"time"
 	"unicode/utf8"
 
 	"github.com/creachadair/jrpc2"
@@ -379,7 +380,7 @@ func TestEmit(t *testing.T) {
 			OnNotify:   func(*jrpc2.Request) {},
 		})
 		bridge := jhttp.NewBridge(assign, &jhttp.BridgeOptions{Server: &jrpc2.ServerOptions{DisableBuiltin: true}})
-		ctx := context.Background()
+		bg := context.Background()
 
 		for i, c := range tab.Cells {
 			if i%nshard != shard || (i/nshard)%stride != 0 {
@@ -393,6 +394,9 @@ func TestEmit(t *testing.T) {
 			}
 			val := value(c.Value, rng)
 			mode, hval, herr, cbval = "echo", nil, nil, nil
+			// a reply may never come if what was emitted cannot be parsed back: every operation has a (fake-clock) deadline
+			ctx, cancelOp := context.WithTimeout(bg, time.Minute)
+			_ = cancelOp // the context is abandoned at the end of the cell; the bubble's fake clock never reaches it otherwise
 			ct.take()
 			st.take()
 			res.Evaluations++
@@ -495,7 +499,7 @@ func TestEmit(t *testing.T) {
 					body += `,"params":` + string(pj)
 				}
 				body += "}"
-				req := httptest.NewRequest("POST", "http://b/", strings.NewReader(body))
+				req := httptest.NewRequest("POST", "http://b/", strings.NewReader(body)).WithContext(ctx)
 				req.Header.Set("Content-Type", "application/json")
 				w := httptest.NewRecorder()
 				done := make(chan struct{})
